@@ -22,41 +22,6 @@ static struct kept kept[MAXTREES];
 static int nkept;
 static char epoch_mode[4096];
 
-/* structural serialisation of a (DAG) result, node identities numbered in visiting order */
-static struct yaep_tree_node *ser_seen[65536];
-static int ser_n;
-static void ser (struct sb *b, struct yaep_tree_node *p, int *nterm)
-{
-  char buf[96];
-  int i;
-  if (p == NULL) { sb_add (b, "NULL"); return; }
-  for (i = 0; i < ser_n; i++) if (ser_seen[i] == p) { sprintf (buf, "#%d", i); sb_add (b, buf); return; }
-  if (ser_n < 65536) ser_seen[ser_n++] = p;
-  switch (p->type)
-    {
-    case YAEP_NIL: sb_add (b, "-"); break;
-    case YAEP_ERROR: sb_add (b, "!"); break;
-    case YAEP_TERM: sprintf (buf, "t%d@%ld", p->val.term.code, (long) ((char *) p->val.term.attr - tags)); sb_add (b, buf); (*nterm)++; break;
-    case YAEP_ANODE:
-      sb_add (b, p->val.anode.name); sprintf (buf, "/%d(", p->val.anode.cost); sb_add (b, buf);
-      for (i = 0; p->val.anode.children[i] != NULL; i++) { if (i) sb_add (b, " "); ser (b, p->val.anode.children[i], nterm); }
-      sb_add (b, ")");
-      break;
-    case YAEP_ALT:
-      sb_add (b, "{"); ser (b, p->val.alt.node, nterm); sb_add (b, "|"); ser (b, p->val.alt.next, nterm); sb_add (b, "}");
-      break;
-    default: sb_add (b, "?BADTYPE");
-    }
-}
-static char *serialise (struct yaep_tree_node *root, int *nterm)
-{
-  struct sb b;
-  sb_init (&b);
-  ser_n = 0; *nterm = 0;
-  ser (&b, root, nterm);
-  return b.s;
-}
-
 static void load_def (int d)
 {
   int i, j;
